@@ -57,6 +57,30 @@ def sgn(v, n): return v - (1 << n) if v >> (n - 1) else v
 def bv(v, n): return v if isinstance(v, z3.ExprRef) else z3.BitVecVal(v, n)
 
 
+def lead_zeros(e, n):
+    """number of leading bits of the n-bit term e that are syntactically zero (zero extension)"""
+    if z3.is_bv_value(e): return n - e.as_long().bit_length()
+    if z3.is_app(e):
+        k = e.decl().kind()
+        if k == z3.Z3_OP_CONCAT and z3.is_bv_value(e.arg(0)) and e.arg(0).as_long() == 0: return e.arg(0).size()
+        if k == z3.Z3_OP_ZERO_EXT: return e.params()[0]
+    return 0
+
+
+def whole_slices(cells):
+    """cells that are the consecutive byte slices Extract(l+8k+7, l+8k, v) of one term v (as written by Exec.explode): the term
+    they spell, else None.  z3.simplify rewrites bottom-up and would push the slices into v before it could merge them."""
+    base = None; l0 = 0
+    for k, c in enumerate(cells):
+        if not is_sym(c) or not z3.is_app(c) or c.decl().kind() != z3.Z3_OP_EXTRACT: return None
+        hi, lo = c.params()
+        if k == 0: base = c.arg(0); l0 = lo
+        elif not c.arg(0).eq(base): return None
+        if lo != l0 + 8 * k or hi != lo + 7: return None
+    w = 8 * len(cells)
+    return base if l0 == 0 and base.size() == w else z3.Extract(l0 + w - 1, l0, base)
+
+
 def simp(e):
     e = z3.simplify(e)
     if z3.is_bv_value(e): return e.as_long()
@@ -274,7 +298,8 @@ class Exec:
             if n == 8 and isinstance(c0, tuple) and all(isinstance(c, tuple) and c[1] == k and s.same_ptr(c[0], c0[0]) for k, c in enumerate(cells)):
                 return s.p2i(c0[0])
             raise Inconclusive('integer load of partial pointer bytes')
-        e = z3.Concat(*[bv(c, 8) for c in reversed(cells)]) if n > 1 else bv(cells[0], 8)
+        e = whole_slices(cells) if n > 1 else None
+        if e is None: e = z3.Concat(*[bv(c, 8) for c in reversed(cells)]) if n > 1 else bv(cells[0], 8)
         if isinstance(ty, IntT) and ty.n != n * 8: e = z3.Extract(ty.n - 1, 0, e)
         return simp(e)
 
@@ -310,7 +335,14 @@ class Exec:
         if isinstance(v, int): return [(v >> (8 * k)) & 255 for k in range(n)]
         w = n * 8; vn = v.size()
         e = v if vn == w else z3.ZeroExt(w - vn, v)
-        return [simp(z3.Extract(8 * k + 7, 8 * k, e)) for k in range(n)]
+        if n == 1: return [simp(e)]
+        # concrete bytes stay concrete; symbolic bytes are kept as un-rewritten slices Extract(8k+7,8k,v): z3 folds the Concat of
+        # adjacent slices built by a later load back into v itself (a per-byte simplified slice such as 2+Extract(7,0,a) would not)
+        out = []
+        for k in range(n):
+            raw = z3.Extract(8 * k + 7, 8 * k, e); c = simp(raw)
+            out.append(c if not is_sym(c) else raw)
+        return out
 
     def fnid(s, name):
         i = s.fnids.get(name)
@@ -750,6 +782,7 @@ class Exec:
             return mask(r, n)
         A, B = bv(a, n), bv(b, n)
         bad = None
+        if op == 'mul' and flags and lead_zeros(A, n) + lead_zeros(B, n) >= n + (1 if 'nsw' in flags else 0): flags = ()
         if op in ('add', 'sub', 'mul') and flags:
             bads = []
             if 'nsw' in flags:
